@@ -324,6 +324,16 @@ func analyzePower(ctx context.Context[parser.IPowerExpressionContext]) {
 				ctx.Diagnostics.Add(diagnostics.Error(err, ctx.AST))
 				return
 			}
+			return
+		}
+		// A literal on one side takes the type of the other operand (as for every other
+		// arithmetic operator); without this `0.5 ^ x_f32` types the base as f64.
+		baseIsVar := baseType.Kind == basetypes.KindVariable
+		expIsVar := expType.Kind == basetypes.KindVariable
+		if baseIsVar != expIsVar && baseType.Kind != basetypes.KindInvalid && expType.Kind != basetypes.KindInvalid {
+			if err := ctx.Constraints.AddCompatible(baseType, expType, power, "^ operands must be compatible"); err != nil {
+				ctx.Diagnostics.Add(diagnostics.Error(err, ctx.AST))
+			}
 		}
 	}
 }
